@@ -1355,6 +1355,11 @@ TARGETS = [
       params={"iter": "RangeSelf"}, recv={"iter": "Range"}),
 ]
 
+# the trait's one-line default methods, instantiated per kind: `next` (= next_id_and_value().map(value)) and `has_more`
+for (k, c) in (("Slice", []), ("Vec", []), ("Arr", ["N"]), ("Range", [])):
+    TARGETS.append(T(k, "iter/con_iter.rs", r"trait ConcurrentIter", ["next", "has_more"], k + "Self", consts=c))
+TARGETS.append(T("Iter", "iter/con_iter.rs", r"trait ConcurrentIter", ["has_more"], "IterSelf"))
+
 # construction and cloning (C19): a new iterator is its storage plus a fresh counter with an initial value
 CT = "iter/constructors/implementors/"
 TARGETS += [
